@@ -295,7 +295,10 @@ def drive(r, spec, respond="random", faults=None, max_steps=80):
                 note("timeout" if name == "error" else ("stop" if name == "stop" else "timer"), tk, t)
             else:
                 full = r.random() < .4
-                if full and r.random() < .6 and len(spec.target_px) == spec.size[0] * spec.size[1]:
+                if getattr(spec, "first_update_cursor_only", False) and not spec.updates:
+                    rects = [enc_cursor(r, spec.pf, r.randrange(3), r.randrange(3), r.choice([1, 4, 9]), r.choice([1, 3]))]
+                    msg = spec.sess.update(rects)
+                elif full and r.random() < .6 and len(spec.target_px) == spec.size[0] * spec.size[1]:
                     rc = Rect(0, 0, spec.size[0], spec.size[1], E_RAW, b"".join(pixel_bytes(spec.pf, p) for p in spec.target_px),
                               [(0, 0, spec.size[0], spec.size[1], list(spec.target_px))], "raw")
                     msg = spec.sess.update([rc])
